@@ -6,6 +6,7 @@ CONSTANTS
     Design = "temp"
     Policy = "trust"
     RenameAt = "closed"
+    LossyNames = FALSE
     Memo = FALSE
     MaxClear = 1
     MaxExtra = 1
@@ -17,6 +18,7 @@ NEXT Next
 INVARIANT TypeOK
 INVARIANT NoRaise
 INVARIANT RightResults
+INVARIANT Injective
 INVARIANT NoRecompute
 INVARIANT FinalWhole
 INVARIANT OneOwner
